@@ -9,6 +9,7 @@ package match
 //@ ghost notified gmap[any]int
 //@ ghost visitedB set[ref]
 //@ func iface Client.Update (n)
+//@   allocates none
 //@   effect notified := upd(notified, recv, notified[recv] + 1)
 //@   note a subscriber's Update callback is assumed not to touch the match trie
 
@@ -26,10 +27,9 @@ package match
 // the tail of the path (nil once the path is exhausted: implicit recursion).
 //@ func (*branch).update
 //@   props C06 C08 C12
-//@   requires NodeWf(b)
-//@   requires [subtree-wf] forall x ref :: x != nil ==> (forall k string :: has(heapsel("branch.children", x), k) ==> heapsel("branch.children", x)[k] != nil)
-//@     && (forall c any :: has(heapsel("branch.clients", x), c) ==> c != nil)
-//@   requires [updated-is-not-a-trie-map] updated == nil || (forall x ref :: heapsel("branch.clients", x) != updated)
+//@   requires b != nil && TrieWf()
+//@   requires [updated-is-not-a-trie-map] updated == nil || (forall x ref :: typed(x, "branch") ==> heapsel("branch.clients", x) != updated)
+//@   allocates none
 //@   effect visitedB := union1(visitedB, b)
 //@   modifies ghost notified, ghost visitedB, mapof(updated)
 //@   invariant 0: [clients-once] (forall c any :: notified[c] >= old(notified[c]))
@@ -37,16 +37,16 @@ package match
 //@         && (forall c any :: notified[c] - old(notified[c]) == ite(has(updated, c) && !old(has(updated, c)), 1, 0)))
 //@     && (forall c any :: $visited[c] ==> notified[c] >= old(notified[c]))
 //@     && (forall x ref :: visitedB[x] <==> (old(visitedB[x]) || x == b))
-//@     && (forall x ref :: dom(heapsel("branch.clients", x)) == old(dom(heapsel("branch.clients", x))))
+//@     && (forall x ref :: typed(x, "branch") ==> dom(heapsel("branch.clients", x)) == old(dom(heapsel("branch.clients", x))))
 //@   invariant 1: [implicit-recursion-reaches-every-child] (forall k string :: $visited[k] ==> visitedB[b.children[k]])
 //@     && (forall x ref :: old(visitedB[x]) || x == b ==> visitedB[x])
-//@     && (forall x ref :: dom(heapsel("branch.clients", x)) == old(dom(heapsel("branch.clients", x))))
+//@     && (forall x ref :: typed(x, "branch") ==> dom(heapsel("branch.clients", x)) == old(dom(heapsel("branch.clients", x))))
 //@     && (forall c any :: notified[c] >= old(notified[c]))
 //@     && (updated != nil ==> (forall c any :: old(has(updated, c)) ==> has(updated, c))
 //@         && (forall c any :: notified[c] - old(notified[c]) == ite(has(updated, c) && !old(has(updated, c)), 1, 0)))
 //@   invariant 2: [glob-path-reaches-every-child] (forall k string :: $visited[k] ==> visitedB[b.children[k]])
 //@     && (forall x ref :: old(visitedB[x]) || x == b ==> visitedB[x])
-//@     && (forall x ref :: dom(heapsel("branch.clients", x)) == old(dom(heapsel("branch.clients", x))))
+//@     && (forall x ref :: typed(x, "branch") ==> dom(heapsel("branch.clients", x)) == old(dom(heapsel("branch.clients", x))))
 //@     && (forall c any :: notified[c] >= old(notified[c]))
 //@     && (updated != nil ==> (forall c any :: old(has(updated, c)) ==> has(updated, c))
 //@         && (forall c any :: notified[c] - old(notified[c]) == ite(has(updated, c) && !old(has(updated, c)), 1, 0)))
@@ -62,15 +62,17 @@ package match
 
 //@ func New
 //@   props C06 C12
+//@   allocates branch
 //@   ensures res0 != nil && fresh(res0) && res0.tree != nil && fresh(res0.tree) && res0.tree.clients == nil && res0.tree.children == nil
 
 // addQuery registers client at exactly the node reached by query, creating the
 // missing nodes on the way; no other node's client set changes.
 //@ func (*branch).addQuery
 //@   props C06 C12
-//@   requires b != nil && client != nil
-//@   requires [subtree-wf] forall x ref :: x != nil ==> (forall k string :: has(heapsel("branch.children", x), k) ==> heapsel("branch.children", x)[k] != nil)
-//@   modifies *
+//@   requires b != nil && client != nil && TrieWf()
+//@   modifies heap(branch.clients), heap(branch.children), mapheap(b.clients), mapheap(b.children)
+//@   allocates branch
+//@   ensures [trie-stays-wf] TrieWf()
 //@   ensures [registered-here C06] len(query) == 0 ==> has(b.clients, client)
 //@     && (forall c any :: c != client ==> (has(b.clients, c) <==> old(has(b.clients, c))))
 //@     && b.children == old(b.children)
@@ -85,9 +87,10 @@ package match
 // node ends up with neither clients nor children.
 //@ func (*branch).removeQuery
 //@   props C06 C12
-//@   requires b != nil
-//@   requires [subtree-wf] forall x ref :: x != nil ==> (forall k string :: has(heapsel("branch.children", x), k) ==> heapsel("branch.children", x)[k] != nil)
-//@   modifies *
+//@   requires b != nil && TrieWf()
+//@   modifies heap(branch.clients), heap(branch.children), mapheap(b.clients), mapheap(b.children)
+//@   allocates none
+//@   ensures [trie-stays-wf] TrieWf()
 //@   ensures [empty-iff-nothing-left C06] res0 <==> (len(b.clients) == 0 && len(b.children) == 0)
 //@   ensures [removes-only-the-client C06] len(query) == 0 ==> !has(b.clients, client)
 //@     && (forall c any :: c != client ==> (has(b.clients, c) <==> old(has(b.clients, c))))
@@ -95,3 +98,50 @@ package match
 //@   assert at call (*branch).removeQuery#0: [descends-by-head C06] len(query) > 0 && arg0 == b.children[query[0]] && view(arg1) == Tail(query) && arg2 == client
 //@     && (forall c any :: has(b.clients, c) <==> old(has(b.clients, c))) && (forall k string :: has(b.children, k) <==> old(has(b.children, k)))
 //@   assert at builtin delete#1: [prune-only-empty-child C06] len(sb.clients) == 0 && len(sb.children) == 0 && arg1 == query[0]
+
+// The whole trie is well formed (no nil child, no nil client anywhere).
+//@ pred TrieWf() := (forall x ref :: typed(x, "branch") ==> (forall k string :: has(heapsel("branch.children", x), k) ==> heapsel("branch.children", x)[k] != nil)
+//@   && (forall c any :: has(heapsel("branch.clients", x), c) ==> c != nil))
+//@ pred MatchWf(m *Match) := m != nil && m.tree != nil
+
+// addSteps / removeSteps: ghost log of the (query, client) pairs handed to the trie.
+//@ ghost lastAddedQuery seq[string]
+//@ ghost lastRemovedQuery seq[string]
+//@ ghost lastRemovedClient any
+//@ ghost removeSteps int
+
+//@ func (*Match).AddQuery
+//@   props C06 C04 C12
+//@   requires MatchWf(m) && client != nil && TrieWf()
+//@   allocates branch
+//@   freezes query
+//@   note the returned remove closure keeps the query slice: the caller must not write to its backing array afterwards
+//@   modifies heap(branch.clients), heap(branch.children), mapheap(m.tree.clients), mapheap(m.tree.children)
+//@   ensures res0 != nil && TrieWf()
+//@   assert at call (*branch).addQuery#0: [registers-the-given-query C06] arg0 == m.tree && arg1 == query && arg2 == client && wheld(m.mu)
+
+// The remove closure removes exactly the query/client pair it was created for, under the write lock.
+//@ func (*Match).AddQuery$1
+//@   props C06 C12
+//@   requires MatchWf(m) && TrieWf()
+//@   modifies heap(branch.clients), heap(branch.children), mapheap(m.tree.clients), mapheap(m.tree.children)
+//@   ensures TrieWf()
+//@   assert at call (*branch).removeQuery#0: [removes-what-was-added C06] arg0 == m.tree && arg1 == query && arg2 == client && wheld(m.mu)
+
+//@ func (*Match).Update
+//@   props C06 C12
+//@   requires MatchWf(m) && TrieWf()
+//@   modifies ghost notified, ghost visitedB
+//@   assert at call (*branch).update#0: arg0 == m.tree && arg1 == n && view(arg2) == view(p) && arg3 == nil
+
+// UpdateOnce: with a non-nil shared set every client is invoked at most once
+// across all UpdateOnce calls that share the set.
+//@ func (*Match).UpdateOnce
+//@   props C06 C08 C12
+//@   requires MatchWf(m) && TrieWf()
+//@   requires [updated-is-not-a-trie-map] updated == nil || (forall x ref :: typed(x, "branch") ==> heapsel("branch.clients", x) != updated)
+//@   modifies ghost notified, ghost visitedB, mapof(updated)
+//@   ensures [never-un-notified] forall c any :: notified[c] >= old(notified[c])
+//@   ensures [at-most-once-with-shared-set C06] updated != nil ==> (forall c any :: old(has(updated, c)) ==> has(updated, c))
+//@     && (forall c any :: notified[c] - old(notified[c]) == ite(has(updated, c) && !old(has(updated, c)), 1, 0))
+//@   ensures [whole-trie-consulted C06] visitedB[m.tree]
